@@ -40,6 +40,9 @@ func runC10(cases string, res *Result) {
 	}()
 	res.Exhaustive = []string{"c10-grid (1-3 levels x 2 blocks x 5 choices)", "c10-place (4 placements x 1-2 child levels x 2 blocks x 5 choices)"}
 	readCases(cases, func(c Case) {
+		if evalAbort {
+			return // a render did not come back: see renderGuarded
+		}
 		stream := c.str("stream")
 		res.Hist["stream:"+stream]++
 		res.Hist[fmt.Sprintf("levels:%d", c.num("levels"))]++
@@ -125,6 +128,9 @@ func runC10(cases string, res *Result) {
 		}
 	})
 	// last: a rendering that does not end leaves a goroutine behind; the results so far are complete
+	if evalAbort {
+		return
+	}
 	c10ParentInsideConstructs(res)
 	c10BlocksUnderLiteralConditions(res)
 	c10ParentNameSpellings(res)
